@@ -243,7 +243,7 @@ class Explorer:
                     kind = 'limit'
                     val = str(e)
                     p.flag(str(e))
-                except Exception as e:  # outcome of the real code
+                except (Exception, SystemExit) as e:  # outcome of the real code
                     kind = 'exc'
                     val = e
                 if p.flagged is not None and kind != 'infeasible':
@@ -670,7 +670,10 @@ class SymInt:
         return self
 
     def __format__(self, spec):
-        return '<sym:%s>' % spec if spec else str(self)
+        if not spec:
+            return str(self)
+        hook = FMT_HOOK[0]
+        return hook(self, spec) if hook else '<sym:%s>' % spec
 
     def __str__(self):
         # "some decimal spelling of this integer": a token that the int()/eval() stubs of
@@ -710,6 +713,7 @@ def _symmod(a, n):
 
 
 STR_HOOK = [None]
+FMT_HOOK = [None]
 
 
 class SymFrac:
